@@ -161,12 +161,13 @@ def edit_arb(n, k=None, tag=None, want=None, tier="quick"):
         defs["VP_K"] = k
         name += "-K%d" % k
         iters = k + 1
+    ref_iters = iters + (1 if "VP_K" in defs else 0)
     ncp, ndel, nnf = n // 11, n // 3, n // 22
     return Obl(name, "C17/edit.c", real=EDIT_REAL, kit=EDIT_KIT, include_real=["util/vector.c"],
                defs=defs, replace_calls=EDIT_REPLACE,
                flags=["--max-field-sensitivity-array-size", str(max(2 * n, 16) + 1)],
                unwind=max(12, n + 2),
-               unwindset=dict([("ref_decode.0", iters), ("ldb_edit_import.0", iters),
+               unwindset=dict([("ref_decode.0", ref_iters), ("ldb_edit_import.0", iters),
                                ("ldb_edit_clear.0", ncp + 2), ("ldb_edit_clear.1", nnf + 2),
                                ("check_edit.0", ncp + 2), ("check_edit.1", nnf + 2), ("check_edit.2", ndel + 2)] +
                               [("ref_canon_del.%d" % i, ndel + 2) for i in range(5)] +
